@@ -48,6 +48,21 @@ def gen_cases(tier, seed):
             cfg["kind"] = "random"
         cases.append({"kind": "transform", "cfg": cfg, "hist": HIST[i % 4], "seed": env.subseed(seed, "c15r", i),
                       "world": "f64", "cost": 2})
+    # stateful layers nested in containers (their state dict is loaded through the parent), every history
+    nested = [
+        {"fam": "composite", "shape": [3], "ctx": 0, "parts": [{"fam": "actnorm", "shape": [3]},
+                                                               {"fam": "lu", "shape": [3], "cache": False, "idinit": False}]},
+        {"fam": "composite", "shape": [2, 2, 3], "ctx": 0, "parts": [{"fam": "actnorm", "shape": [2, 2, 3]},
+                                                                     {"fam": "conv1x1", "shape": [2, 2, 3], "cache": False, "idinit": False}]},
+        {"fam": "inverse", "inner": {"fam": "actnorm", "shape": [4]}},
+        {"fam": "composite", "shape": [3], "ctx": 0, "parts": [{"fam": "batchnorm", "shape": [3], "momentum": 0.1, "eps": 1e-5},
+                                                               {"fam": "actnorm", "shape": [3]}]},
+        {"fam": "inverse", "inner": {"fam": "batchnorm", "shape": [2], "momentum": 0.3, "eps": 1e-3}},
+    ]
+    for ni, cfg in enumerate(nested):
+        for hi, h in enumerate(HIST):
+            cases.append({"kind": "transform", "cfg": cfg, "hist": h, "seed": env.subseed(seed, "c15n", ni, hi),
+                          "world": "f64" if (ni + hi) % 2 else "f32", "cost": 2})
     for i in range(40 if tier == "quick" else 1000):
         cases.append({"kind": "flow", "cfg": dzoo.sample_flow_cfg(rng), "hist": HIST[i % 4], "seed": env.subseed(seed, "c15f", i),
                       "world": "f64", "cost": 3})
